@@ -514,11 +514,14 @@ pub fn run(tier: Tier, seed: u64) -> Report {
     let mut r = Report::new("C16", tier, seed);
     r.rule = "(type, value, encoding) triples for Int/Bool/Bytes/Address/UtxoRef in every documented encoding, \
               boundary-heavy; ill-formed encodings that must be rejected; arbitrary JSON x every Type for totality; \
-              resolve requests: random JSON, well-formed requests with parameters split between args and env plus \
+              resolve requests: random JSON, well-formed requests with parameters (declared in several spellings) split between args and env, under both, or ill-formed under args, plus \
               undeclared extras, and requests whose envelope content/encoding/version is corrupted. distinct = hash of the \
               JSON; non-trivial = value at a representation boundary, parameters split over both maps, or a corrupted envelope"
         .into();
-    r.assumptions = vec!["a key supplied in both args and env is not generated (the statement does not order them)".into()];
+    r.assumptions = vec![
+        "a key supplied under both args and env may be handed over with either value (the statement does not rank the maps)".into(),
+        "an ill-formed value under args for a declared parameter must be refused whatever env holds".into(),
+    ];
     r.explore("roundtrip", tier.pick(150_000, 3_000_000), 40, &|t, rc| check_roundtrip(t, rc));
     r.explore("ill_formed", tier.pick(5_000, 50_000), 8, &|t, rc| check_ill_formed(t, rc));
     r.explore("totality", tier.pick(50_000, 1_000_000), 60, &|t, rc| check_totality(t, rc));
